@@ -7,6 +7,7 @@ package main
 // http.ServeMux registration and dispatch.
 
 import (
+	pathpkg "path"
 	"fmt"
 	"go/types"
 	"strings"
@@ -422,4 +423,66 @@ func goPathUnescape(s string) string {
 		b.WriteByte(s[i])
 	}
 	return b.String()
+}
+
+// pathClean models path.Clean on a concatenation whose symbolic parts are non-empty
+// and contain neither '/' nor '.': only the slashes of the constant parts matter.
+func (e *Engine) pathClean(t *Term, site ssa.Instruction) *Term {
+	if t.Const {
+		return mkStr(pathCleanConcrete(t.SVal))
+	}
+	var out []*Term
+	ps := partsOf(t)
+	for _, p := range ps {
+		if p.Const {
+			c := p.SVal
+			if strings.Contains(c, ".") {
+				e.abort("unsupported", "path.Clean with '.' segments next to symbolic parts")
+			}
+			for strings.Contains(c, "//") {
+				c = strings.ReplaceAll(c, "//", "/")
+			}
+			// a constant part that follows a constant part ending in '/' must not start with '/'
+			if len(out) > 0 && out[len(out)-1].Const && strings.HasSuffix(out[len(out)-1].SVal, "/") {
+				c = strings.TrimPrefix(c, "/")
+			}
+			out = append(out, mkStr(c))
+			continue
+		}
+		if mayContain(p, '/') || mayContain(p, '.') || !e.pcSet[Not(Eq(p, mkStr(""))).String()] {
+			e.abort("unsupported", "path.Clean on a symbolic part that may be empty or contain '/' or '.'")
+		}
+		out = append(out, p)
+	}
+	// strip one trailing slash (the path is longer than "/": it has a symbolic part)
+	if n := len(out); n > 0 && out[n-1].Const && strings.HasSuffix(out[n-1].SVal, "/") {
+		out[n-1] = mkStr(strings.TrimSuffix(out[n-1].SVal, "/"))
+	}
+	return concatPartsKeep(out)
+}
+
+func pathCleanConcrete(s string) string { return pathpkg.Clean(s) }
+
+func init() {
+	reg("path.Clean", func(e *Engine, fn *ssa.Function, a []Value, s ssa.Instruction) Value {
+		return e.pathClean(T(a[0]), s)
+	})
+	reg("path.Join", func(e *Engine, fn *ssa.Function, a []Value, s ssa.Instruction) Value {
+		var elems []*Term
+		for _, x := range argSlice(a[0]) {
+			t := T(x)
+			if t.Const && t.SVal == "" {
+				continue
+			}
+			elems = append(elems, t)
+		}
+		if len(elems) == 0 {
+			return mkStr("")
+		}
+		j := elems[0]
+		for _, x := range elems[1:] {
+			j = strConcat(strConcat(j, mkStr("/")), x)
+		}
+		return e.pathClean(j, s)
+	})
 }
